@@ -329,7 +329,10 @@ def run(rep, pdb, tier):
         okr = len(pu) == 1 and len(st) == 1
         if okr:
             p_, s_ = pu[0], st[0]
-            ri_ = for_range(rc, p_.loops[0])
+            ri_ = for_range(rc, p_.loops[0]) if p_.loops else None
+            rs0 = for_range(rc, s_.loops[0]) if s_.loops else None
+            okr = ri_ is not None and rs0 is not None
+        if okr:
             i = ri_[0]
             fp = facts(rc, p_.node)
             iscoord = any(f[0] == "cmp" and f[1] == "==" and {f[2], f[3]} == {("op", "%", i, stride), num(0)} for f in fp)
